@@ -25,13 +25,29 @@ type schedReader struct {
 	k       int
 	eofData bool
 	hard    bool
+	kind    int
 }
 
 var errHard = errors.New("verif: hard read error")
+var errWrapped = fmt.Errorf("verif: wrapped: %w", io.ErrUnexpectedEOF)
+
+// hardErr: the error of a failing reader. Besides a private error value, the errors that real
+// request bodies return when an upload is cut off (net/http: io.ErrUnexpectedEOF) or torn down.
+func hardErr(kind int) error {
+	switch kind {
+	case 1:
+		return io.ErrUnexpectedEOF
+	case 2:
+		return io.ErrClosedPipe
+	case 3:
+		return errWrapped
+	}
+	return errHard
+}
 
 func (r *schedReader) endErr() error {
 	if r.hard {
-		return errHard
+		return hardErr(r.kind)
 	}
 	return io.EOF
 }
@@ -73,6 +89,7 @@ type c18in struct {
 	Sched   []int    `json:"sched"`
 	EOFData bool     `json:"eof_with_data"`
 	Hard    bool     `json:"hard_error"`
+	Kind    int      `json:"hard_error_kind,omitempty"` // 0 private error value, 1 io.ErrUnexpectedEOF, 2 io.ErrClosedPipe, 3 wrapped io.ErrUnexpectedEOF
 	CbFail  int      `json:"cb_fail"` // -1 none
 	BufSize int      `json:"initial_buf"`
 	Boxes   []c18box `json:"boxes,omitempty"` // when the stream was built from well-formed boxes
@@ -95,7 +112,7 @@ func c18run(in c18in) c18obs {
 	done := make(chan c18obs, 1)
 	go func() {
 		var obs c18obs
-		r := &schedReader{data: in.Stream, sched: in.Sched, eofData: in.EOFData, hard: in.Hard}
+		r := &schedReader{data: in.Stream, sched: in.Sched, eofData: in.EOFData, hard: in.Hard, kind: in.Kind}
 		var buf []byte
 		if in.BufSize > 0 {
 			buf = make([]byte, in.BufSize)
@@ -116,7 +133,7 @@ func c18run(in c18in) c18obs {
 		switch {
 		case err == nil:
 			obs.Res = 0
-		case errors.Is(err, errHard):
+		case in.Hard && errors.Is(err, hardErr(in.Kind)):
 			obs.Res = 1
 		case errors.Is(err, errCb):
 			obs.Res = 2
@@ -340,8 +357,9 @@ func runC18(c *lib.Ctx) error {
 		// hard read error at the end of a truncated copy
 		if rng.Intn(3) == 0 {
 			cut := rng.Intn(len(s) + 1)
-			add(c18in{Stream: s[:cut], Sched: randSched(cut), EOFData: rng.Intn(2) == 0, Hard: true, CbFail: -1}, 0, nil)
-			c.Count("read-error")
+			kind := rng.Intn(4)
+			add(c18in{Stream: s[:cut], Sched: randSched(cut), EOFData: rng.Intn(2) == 0, Hard: true, Kind: kind, CbFail: -1}, 0, nil)
+			c.Count(fmt.Sprintf("read-error/kind-%d", kind))
 		}
 	}
 	// 2. exhaustive compositions of a short stream (moov-less and with 8-byte boxes at the end)
@@ -366,6 +384,18 @@ func runC18(c *lib.Ctx) error {
 				add(c18in{Stream: s[:cut], Sched: randSched(cut), EOFData: ed, CbFail: -1}, gid, nil)
 				c.Count("truncated")
 			}
+		}
+	}
+	// 3b. the reader fails (each kind of error) at every offset of the same stream
+	{
+		s := append(append(mkbox("moof", []byte{1, 2, 3}), mkbox("mdat", []byte{4, 5, 6, 7})...), mkbox("free", []byte{8})...)
+		for cut := 0; cut <= len(s); cut++ {
+			kind := 1 + cut%3
+			if cut%4 == 0 {
+				kind = 0
+			}
+			add(c18in{Stream: s[:cut], Sched: randSched(cut), EOFData: cut%2 == 0, Hard: true, Kind: kind, CbFail: -1}, 0, nil)
+			c.Count(fmt.Sprintf("read-error/kind-%d", kind))
 		}
 	}
 	// 4. malformed size fields
